@@ -190,7 +190,7 @@ theorem opCopy_refines {neg : Bool} {root : Node} {op : Op} {sop : Spec.Op} {pat
     | nil => exact absurd ((Impl.parsePointer_nil_iff hpf).1 rfl) hfne
     | cons ft fts =>
       rw [Impl.spec_copy hk hp' (by rw [hsf]; exact hpf) rfl]
-      simp only [Impl.copySrc]
+      simp only [Impl.eng_copySrc]
       have h1 := copySource_refines (neg := neg) hr hc hpf
       cases hres1 : Spec.atParent (specOpts neg) (Spec.getIn (specOpts neg) false) (den root) (ft :: fts) with
       | unspec => trivial
